@@ -28,7 +28,7 @@ theorem composeLoop_eq_foldr (ws : List Wrapper) : ∀ (i : Nat) (h : Hook ρ), 
     simp only
     rw [ih _ (Nat.le_of_lt hlt)]
     have : ws.take (i+1) = ws.take i ++ [ws[i]] := by
-      rw [List.take_succ, hget]; rfl
+      rw [List.take_add_one, hget]; rfl
     rw [this, List.foldr_append]
     rfl
 
